@@ -37,6 +37,9 @@ pub enum Elem {
     Str,
     Bytes,
     Rec,
+    /// `tuple<u16, u64, u8>` (canonical layout differs from Rust's) and `own<thing>`
+    Tup,
+    Handle,
 }
 #[derive(Clone, Copy, PartialEq, Eq, Debug)]
 pub enum CopyState {
